@@ -112,6 +112,73 @@ PROPS['C05'] = dict(
     unchecked=['ranges above 3, more than 4 entries, longer keys', 'putint/getint/putstrf formatting'],
 )
 
+TREE_BOUND = 'every LLRB 2-3-4 tree of height <= 3 (<= 7 keys; all 18 coloured shapes enumerated as instances) with one-byte keys under a rank comparator, values 0..2 bytes; put/remove: every (tree, operation key) pair with canonical keys'
+TREE_TRUST = COMMON_TRUST + [PTHREAD_TRUST, 'user comparator = rank of the first key byte (any total order on a finite key set is such a rank); the default qtreetbl_byte_cmp is not separately proved to be a total order', 'put/remove instances use canonical keys 1,3,5,.. and a constant operation key: sound because the tree code inspects keys only through tbl->compare (symmetry argument, not mechanised)']
+PROPS['C01'] = dict(
+    technique='CBMC bounded contract checks on closed trees: every LLRB tree of height <= 3 enumerated by shape and colouring, every operation key, post-state walked through the real pointers by independent spec functions (probe key for the untouched part of the map)',
+    text='For every valid tree of height <= 3 and every operation key (present, between keys, below the minimum, above the maximum) putobj/removeobj/getobj/size/find_min/find_max/clear are shown to realise the ideal sorted-map transition: value and length most recently put, replacement without changing the count, removal of exactly that key (absent key: ENOENT and unchanged key set), every other key untouched (symbolic probe key), exact size, least/greatest key. The post-state satisfies the same invariant the pre-state was drawn from, so histories are covered by induction over operations within the height bound.',
+    design_ref='DESIGN.md section 3 C01',
+    note='Bounded stand-in in tree height (<= 3 before the operation); the window-induction proof of put_obj planned in DESIGN.md 1.4 is not part of this commit. String-key entry points (put/get/remove = obj variants with strlen+1) and putstrf are outside the claim.',
+    trusted_base=TREE_TRUST,
+    unchecked=['trees higher than 3', 'qtreetbl_put/get/remove string wrappers, putstrf, debug'],
+)
+PROPS['C02'] = dict(
+    technique='same closed-tree contracts with the LLRB representation invariant as pre- and postcondition (search order, black root, no red-red, equal black height, no lone right red), checker-vs-invariant equivalence on ALL coloured trees, comparison-count bound via a ghost counter',
+    text='After every put/remove/get (incl. removal of an absent key, replacement, allocation failure) on every tree of height <= 3 the real tree satisfies the full LLRB 2-3-4 invariant; qtreetbl_check() == 0 is shown equivalent to the red-black part of the invariant for EVERY coloured tree of height <= 3 (valid or not); a lookup is shown to call the comparator at most 2*bh times with 2^bh <= n+1.',
+    design_ref='DESIGN.md section 3 C02',
+    note='Bounded stand-in in tree height (<= 3). The inductive lemmas cnt >= 2^bh - 1 / height <= 2*bh are checked on the enumerated trees, not for arbitrary height.',
+    trusted_base=TREE_TRUST,
+    unchecked=['trees higher than 3'],
+)
+PROPS['C03'] = dict(
+    technique='closed-tree walk contract from ANY state satisfying the traversal-state invariant INV_T (no node stamp newer than the table stamp) with every parent pointer arbitrary; INV_T shown inductive for every operation; step budget by unwinding assertions',
+    text='For every tree of height <= 3, every stamp assignment with INV_T (all 256 table stamps incl. the wrap-around), and every assignment of stale parent pointers, a zero-cursor getnext walk returns exactly the in-order key sequence with current values and then the end; INV_T holds after every step (abandonment point) and is preserved by put/remove/get/find_nearest/clear/walks, so every history of complete or abandoned walks, insertions, deletions and searches stays inside the precondition.',
+    design_ref='DESIGN.md section 3 C03',
+    note='Bounded in tree height (quick <= 2, thorough <= 3); unbounded in history via INV_T (meta-argument). Termination: loop bounds 2h+3 with unwinding assertions.',
+    trusted_base=TREE_TRUST,
+    unchecked=['trees higher than 3'],
+)
+PROPS['C04'] = dict(
+    technique='closed-tree contract of qtreetbl_find_nearest from any INV_T state with arbitrary stale parent pointers on every node incl. the root; floor semantics computed from the key set only; termination as unwinding-assertion step budget; continuation walk visits every key once',
+    text='For every tree of height <= 3, every probe byte and every assignment of stale parent pointers the search terminates within the step budget and returns the equal key, else the greatest smaller, else the smallest (ENOENT on empty); the expected answer is computed from the key set alone (history independence); when no node carries the current stamp, continuing with getnext visits every key exactly once and ends.',
+    design_ref='DESIGN.md section 3 C04',
+    note='Bounded in tree height (quick <= 2, thorough <= 3).',
+    trusted_base=TREE_TRUST,
+    unchecked=['trees higher than 3', 'dangling (freed) parent pointers are not modelled separately: any live node or NULL'],
+)
+PROPS['C06'] = dict(
+    technique='CBMC bounded contract checks on the static hash table: every well-formed slot structure of a 2-slot table enumerated as instances (value bytes symbolic), put with values on both sides of the slot boundaries, structural invariant + ideal-map view + exact accounting as postcondition; memcpy of value blocks by ghost-offset contract',
+    text='For every well-formed structure of a 2-slot table (leading keys, collision keys, extension blocks, free slots, all home-index patterns under an uninterpreted placement hash) put_by_obj with values of 1/33/99 bytes is shown to succeed exactly when a slot is free and the value fits into free plus released slots, to store the exact length in ceil-many slots with the given bytes, to keep every other key unchanged, to leave its own key unchanged or absent on ENOBUFS, and to keep used-slot/key counters exact; get/remove by key on two structures (thorough).',
+    design_ref='DESIGN.md section 3 C06',
+    note='Bounded stand-in: capacity 2 slots, in-slot one-byte keys, alphabet of 3 keys; keys longer than 16 bytes (MD5 path), getnext/remove_by_idx/clear and capacities >= 3 are NOT covered (the harnesses exist but do not finish within the budgets of this sandbox); value bytes are claimed for an arbitrary ghost offset per block.',
+    trusted_base=COMMON_TRUST + ['qhashmurmur3_32/qhashmd5 replaced by deterministic stand-ins inside this harness', 'memcpy of value blocks: assumed ghost-offset contract; get_slots(): typed contract stub whose equality with the real byte arithmetic is an obligation at every call; malloc of result buffers: fixed-capacity object with the requested size checked at every copy'],
+    unchecked=['capacity > 2', 'long keys', 'getnext, remove_by_idx, clear, debug'],
+)
+PROPS['C07'] = dict(
+    technique='well-formedness predicate INV_wf as postcondition of every covered operation; init/attach contract; 2-run relocation contract (same put through a handle on a byte copy at another address yields the same result, view and counters)',
+    text='qhasharr() is shown to initialise the whole region as an empty well-formed table and, with memsize 0, to attach without writing; every covered operation re-establishes INV_wf (slot kinds, links and back links, collision counts, header counters) on the exactly-sized user region; for every 2-slot structure the same put through a second handle on a byte-for-byte copy at a different address returns the same result and leaves the same keys, values and counters.',
+    design_ref='DESIGN.md section 3 C07',
+    note='Bounded as C06 (2 slots). "Never written outside the region": the region is one exactly-sized object, every access carries a bounds obligation.',
+    trusted_base=COMMON_TRUST + ['as C06'],
+    unchecked=['capacity > 2; alignment of the relocation address'],
+)
+PROPS['C08'] = dict(
+    technique='CBMC bounded contract checks on closed list tables: every table of a constant size under all 16 option combinations (symbolic), compared with the ideal ordered multimap by walking the real links',
+    text='For every list table of 0..3 entries with names from {a, A, b}, every option combination and every value, put (append/prepend, unique replaces all equal keys incl. case-insensitive equality), get (first match in lookup direction), getmulti and name-filtered walks (all matches in lookup order), remove (all matches, exact count), removal of the current entry during a walk, size, stable ascending sort and clear are shown to realise the ideal multimap transition; the constructor maps the option word to the behaviour switches.',
+    design_ref='DESIGN.md section 3 C08',
+    note='Bounded stand-in (<= 2 entries quick, 3 thorough). NOT covered: save/load round trip (file and printf-family I/O have no model); putint/putstrf formatting.',
+    trusted_base=COMMON_TRUST + [PTHREAD_TRUST, 'strcmp/strcasecmp/strdup/strlen: CBMC library models; qhashmurmur3_32 replaced by a deterministic stand-in'],
+    unchecked=['save/load', 'tables with more than 3 entries, longer names'],
+)
+PROPS['C13'] = dict(
+    technique='sequential lock-discipline reduction as contract overlay: shared container fields hold poison whenever the ghost lock depth is 0 (revealed at first acquisition, hidden again at final release); every sequential contract must still hold',
+    text='For the thread-safe vector (all operations, unbounded contracts) and list (insert, copying get / pop / remove, toarray/tostring) the operation is shown to touch shared state only inside one critical section: with num/max/data (vector) resp. num/datasum/first/last (list) replaced by arbitrary values outside the lock, every postcondition and every safety obligation still holds, and the lock is released on return. Linearizability then follows from the standard reduction (all shared accesses of an operation inside one critical section of one mutex).',
+    design_ref='DESIGN.md section 3 C13',
+    note='No interleaving is explored: this decides the lock discipline, the reduction theorem and POSIX mutex semantics are assumed. Tree table, hash table and list table overlays are not built; unlocked single-word reads such as size() are outside the operation list of the property.',
+    trusted_base=COMMON_TRUST + [PTHREAD_TRUST, 'reduction theorem (operations whose shared accesses lie in one critical section are atomic): assumed, not mechanised'],
+    unchecked=['actual interleavings / data races on fields not poisoned', 'qtreetbl, qhashtbl, qlisttbl overlays'],
+)
+
 NOT_APPLICABLE = {
     'C20': 'needs a second, reference parser as specification and a proof that two tokenisers agree on every document; CBMC has no usable model of the fgets/vsnprintf/realloc-based code and a bounded stand-in (~10 symbolic bytes) cannot hold one nested section, so nothing the property is about would be decided (DESIGN.md section 4)',
 }
